@@ -219,6 +219,10 @@ func (e *Engine) takeTick(c *ChanObj) {
 
 func (e *Engine) chanRecv(c *ChanObj, elemT types.Type, pos string) (Value, bool) {
 	if c != nil && c.ticker {
+		if c.stopped {
+			// a stopped ticker never fires again: the receive blocks for ever
+			e.abort("BLOCKED", "recv on the channel of a stopped ticker at "+pos)
+		}
 		if !e.tickAvailable(c) {
 			e.abort("TICK-HORIZON", "tick budget exhausted at "+pos)
 		}
